@@ -159,6 +159,15 @@ func VerifC07Vote() {
 		}
 	}
 	vs.Assert("index-size", len(byPower) == nonZero)
+	// the raw index holds exactly one entry per non-zero total (no stale entries left behind, even ones that the
+	// getter would skip today)
+	rawEntries := 0
+	it := k.SignalTotalPowersByPowerStoreIterator(ctx)
+	for ; it.Valid(); it.Next() {
+		rawEntries++
+	}
+	it.Close()
+	vs.Assert("index-has-no-stale-entries", rawEntries == nonZero)
 	for i := range byPower {
 		st, gerr := k.GetSignalTotalPower(ctx, byPower[i].ID)
 		vs.Assert("index-entry-live", gerr == nil && st.Power == byPower[i].Power)
